@@ -330,7 +330,93 @@ def gen_cases(ctx: Ctx):
         yield kinds, inp, ctx.rng.random() < 0.3
 
 
+# ---------------------------------------------------------------------------------------------
+# the shared barrier across runs of the documented API (built-in pipeline)
+# ---------------------------------------------------------------------------------------------
+
+def _hist_slices(prefix, n):
+    return [{"name": f"{prefix}{i}", "ph": "X", "pid": 0, "tid": 1, "ts": 100.0 + 10 * i, "dur": 5.0,
+             "args": {"uid": f"{prefix}{i}"}} for i in range(n)]
+
+
+def run_history(shape):
+    """histories in which one run aborts while the first barrier already holds events.
+    returns (exported slice uids of the run under test, uids exported by the same run alone)"""
+    import contextlib
+    import io
+    import json
+    import os
+    import shutil
+    import tempfile
+    import aiu_trace_analyzer.logger as aiulog
+    from aiu_trace_analyzer.core.acelyzer import Acelyzer
+    from lib import stage
+    tmp = tempfile.mkdtemp(prefix="aiuverif_")
+    broken = {"name": "broken", "ph": "X", "pid": 0, "tid": 1, "ts": "oops", "dur": 5}
+
+    def uids(path):
+        with open(path) as fh:
+            return sorted(e["args"]["uid"] for e in json.load(fh)["traceEvents"] if e.get("ph") == "X" and "uid" in e.get("args", {}))
+
+    def quiet(fn):
+        saved = sys_argv_guard()
+        try:
+            with contextlib.redirect_stdout(io.StringIO()):
+                r = fn()
+            aiulog.loglevel = -1
+            return r
+        except BaseException as e:  # noqa: BLE001
+            return e
+        finally:
+            saved()
+    try:
+        fa, fb = os.path.join(tmp, "a.json"), os.path.join(tmp, "b.json")
+        stage.write_trace(fb, _hist_slices("B", 3))
+        if shape == "preconstructed":
+            stage.write_trace(fa, _hist_slices("A", 3) + [broken])
+            a = quiet(lambda: Acelyzer(["-i", fa, "-o", os.path.join(tmp, "oa.json"), "-D", "0"]))
+            b = quiet(lambda: Acelyzer(["-i", fb, "-o", os.path.join(tmp, "ob.json"), "-D", "0"]))
+            ra = quiet(a.run)
+            assert isinstance(ra, BaseException), "the aborting run did not abort"
+            quiet(b.run)
+            got = uids(os.path.join(tmp, "ob.json"))
+        else:   # retry on the same object after the input was repaired
+            stage.write_trace(fb, _hist_slices("B", 3) + [broken])
+            b = quiet(lambda: Acelyzer(["-i", fb, "-o", os.path.join(tmp, "ob.json"), "-D", "0"]))
+            rb = quiet(b.run)
+            assert isinstance(rb, BaseException), "the aborting run did not abort"
+            stage.write_trace(fb, _hist_slices("B", 3))
+            quiet(b.run)
+            got = uids(os.path.join(tmp, "ob.json"))
+        ref = quiet(lambda: Acelyzer(["-i", fb, "-o", os.path.join(tmp, "oref.json"), "-D", "0"]))
+        quiet(ref.run)
+        want = uids(os.path.join(tmp, "oref.json"))
+        return got, want
+    finally:
+        shutil.rmtree(tmp, ignore_errors=True)
+
+
+def sys_argv_guard():
+    import sys
+    saved = sys.argv
+    sys.argv = ["acelyzer"]
+
+    def restore():
+        sys.argv = saved
+    return restore
+
+
 def oracle_on_case(ctx: Ctx, case, verbose=False):
+    if case.get("history"):
+        got, want = run_history(case["history"])
+        if verbose:
+            print("history", case["history"], "exported", got, "alone", want)
+        if got != want:
+            ctx.violation("engine-barrier-leftover",
+                          f"history '{case['history']}': a run of the built-in pipeline after a run that aborted while the first "
+                          f"barrier held events exports slices {got}; the same run alone exports {want} (events delivered that no "
+                          f"earlier stage of this pipeline returned / delivered twice)", case)
+        return {"out": got, "log": [], "emis": {}, "drains": []}
     kinds, inp = case["kinds"], case["input"]
     r = run_real(kinds, inp, case.get("shared", False))
     v = oracle(kinds, inp, r, case.get("shared", False))
@@ -342,6 +428,11 @@ def oracle_on_case(ctx: Ctx, case, verbose=False):
 
 
 def run(ctx: Ctx):
+    for shape in ("preconstructed", "retry"):
+        case = {"history": shape}
+        oracle_on_case(ctx, case)
+        ctx.case_done(case, key=("history", shape), nontrivial=True)
+        ctx.count("barrier_history_cases")
     cases, reals = [], []
     for kinds, inp, shared in gen_cases(ctx):
         case = {"kinds": kinds, "input": inp, "shared": shared}
@@ -380,6 +471,8 @@ def run(ctx: Ctx):
 
 
 def shrink(ctx: Ctx, case, classifier):
+    if case.get("history"):
+        return case
     kinds, inp = list(case["kinds"]), list(case["input"])
     sh = case.get("shared", False)
 
